@@ -75,6 +75,8 @@ func zzC20_find() {
 		vAssert(err == nil && first == want[0], "FindAVP returns the first AVP in depth-first document order")
 	}
 	all, err2 := m.FindAVPs(code, 0)
+	vObserve("found", uint64(len(all)))
+	vObserve("first", zzB2U(first != nil))
 	if len(want) == 0 {
 		vAssert(err2 != nil && len(all) == 0, "absent AVP: FindAVPs yields an error / empty result")
 	} else {
@@ -95,6 +97,7 @@ func zzC20_find() {
 	}
 	wantp := zzRefPath(m.AVP, path)
 	gotp, err3 := m.FindAVPsWithPath(ipath, 0)
+	vObserve("bypath", uint64(len(gotp)))
 	vAssert(err3 == nil && len(gotp) == len(wantp), "FindAVPsWithPath returns exactly the AVPs reached by the path")
 	if len(gotp) == len(wantp) {
 		for i := range wantp {
